@@ -6,8 +6,10 @@
 //! Operation line (see lean/Driver/Ops/OneShot.lean):
 //!   oneshot <ENC> <decode|bomrm|nobom|nobomnorepl> <hex input>
 //!       => <hex of UTF-8 result>|none <encoding-used ident> <had_errors 0|1> <borrowed 0|1>
-//! `encode` has no model handler; it is covered by the oracle only. Its failures are
-//! reported with the replayable left-hand side `oneshotenc <ENC> <hex of the UTF-8 input>`.
+//!   oneshotenc <ENC> <hex of the UTF-8 input>
+//!       => <hex of the bytes> <encoding-used ident> <had_unmappables 0|1> <borrowed 0|1>
+//! (`Encoding::encode` against `Model.OneShot.encode`; emitted for every input up to 130 bytes and
+//! every 8th (thorough: 24th) longer one — the oracles run on every input).
 use crate::dec::{enc_by_ident, gen_stream, new_decoder, Bom, ALL, ALPHABET};
 use crate::util::*;
 use encoding_rs::*;
@@ -380,6 +382,10 @@ fn stream_encode(e: &'static Encoding, s: &str, chunk: Option<usize>) -> Result<
 }
 
 pub fn encode_oracles(out: &mut Out, e: &'static Encoding, s: &str) {
+    encode_oracles_emit(out, e, s, true)
+}
+
+pub fn encode_oracles_emit(out: &mut Out, e: &'static Encoding, s: &str, emit: bool) {
     out.oracle_evals += 1;
     let lhs = format!("oneshotenc {} {}", ident(e), hex(s.as_bytes()));
     let sp = std::panic::AssertUnwindSafe(s);
@@ -398,6 +404,9 @@ pub fn encode_oracles(out: &mut Out, e: &'static Encoding, s: &str) {
             return;
         }
     };
+    if emit {
+        out.op(lhs.clone(), format!("{} {} {} {}", hex(&bytes), ident(enc), b01(had), b01(borrowed)));
+    }
     let doc_out = if e == REPLACEMENT || e == UTF_16BE || e == UTF_16LE { UTF_8 } else { e };
     if enc != doc_out || enc != e.output_encoding() {
         out.fail("C11", &lhs, format!("encode reports {} but the output encoding is {}", enc.name(), doc_out.name()));
@@ -663,6 +672,15 @@ fn gen_decode(out: &mut Out, rng: &mut Rng, thorough: bool) {
 const ENC_CHARS: [&str; 14] = ["\u{80}", "é", "あ", "\u{1F600}", "\u{1B}", "\u{0E}", "\u{0F}", "\u{FFFD}", "¥", "\u{203E}", "ｶ", "\u{E5E5}", "한", "\u{7F}"];
 
 fn gen_encode(out: &mut Out, rng: &mut Rng, thorough: bool) {
+    // operation lines for the model: every input up to 130 bytes, every 8th (thorough: 24th) longer one
+    // (the model driver is quadratic in the number of numeric character references of one text)
+    let every = if thorough { 24 } else { 8 };
+    let mut counter = 0usize;
+    let mut run = |out: &mut Out, e: &'static Encoding, s: &str| {
+        counter += 1;
+        let emit = s.len() <= 130 || counter % every == 0;
+        encode_oracles_emit(out, e, s, emit);
+    };
     let lens: Vec<usize> = if thorough {
         let mut v: Vec<usize> = (0..=66).collect();
         v.extend_from_slice(&[127, 128, 129, 255, 256, 257, 1000, 1024, 4095, 4096]);
@@ -673,7 +691,7 @@ fn gen_encode(out: &mut Out, rng: &mut Rng, thorough: bool) {
     for &e in ALL.iter() {
         for &len in &lens {
             let base = String::from_utf8(ascii_filler(len, len + 1)).unwrap();
-            encode_oracles(out, e, &base);
+            run(out, e, &base);
             for p in 0..64usize {
                 if p >= len {
                     break;
@@ -713,7 +731,7 @@ fn gen_encode(out: &mut Out, rng: &mut Rng, thorough: bool) {
                                 }
                             }
                         }
-                        encode_oracles(out, e, &s);
+                        run(out, e, &s);
                     }
                 }
             }
@@ -731,7 +749,7 @@ fn gen_encode(out: &mut Out, rng: &mut Rng, thorough: bool) {
                     s.push((0x20 + rng.below(0x5F) as u8) as char);
                 }
             }
-            encode_oracles(out, e, &s);
+            run(out, e, &s);
         }
     }
 }
